@@ -224,14 +224,17 @@ RunOut judge_case(mc::Case & c, const PSM & q, int mi, int pt, int ft, const Nod
   }
   // ---- convergence clause
   if (A.status != 2) {
-    if (P.wellcond && P.basin[size_t(q.start)] && st.conv) {
+    // problems outside the families the statement names (the atan family) converge only as far as the tolerances ask for:
+    // their convergence clause is judged for tolerances well below the 1e-3 target
+    const bool tol_ok = P.conv_max_tol >= 1 || std::max(TOLS[pt], TOLS[ft]) <= P.conv_max_tol;
+    if (P.wellcond && P.basin[size_t(q.start)] && st.conv && tol_ok) {
       c.outcome("convergence clause judged");
       c.judge("Ftol/Ptol result within 1e-3 of the closed-form minimiser", A.dist_min, 1e-3);
       if (!(A.dist_min <= 1e-3))
         c.outcome(st.s.delta < 1e-6 ? "convergence violated: trust region < 1e-6" : (st.s.delta < 1 ? "convergence violated: trust region in [1e-6,1)"
                                     : (st.s.delta < 1000 ? "convergence violated: trust region in [1,1000)" : "convergence violated: trust region >= 1000")));
     } else {
-      c.outcome(!P.wellcond ? "convergence clause n/a: no unique well-conditioned closed-form minimiser"
+      c.outcome(!tol_ok ? "convergence clause n/a: tolerance above this family's limit" : !P.wellcond ? "convergence clause n/a: no unique well-conditioned closed-form minimiser"
                             : (!P.basin[size_t(q.start)] ? "convergence clause n/a: start outside the basin" : "convergence clause n/a: strategy state not left by a converged solve"));
     }
   }
